@@ -14,7 +14,7 @@ META = {
                   "(unbounded naturals) about the Gallina transcription node_seq of NodeSequenceForPart; the transcription is tied to the Go code "
                   "on every run by comparing both on all (p,t,n) in a box, and the implementation's outputs are also evaluated against the "
                   "theorem right-hand sides directly.",
-    "level_note": "Trusted: Coq 8.16.1 kernel + vm_compute; hand-written model node_seq (tied by exhaustive comparison on t<=16,n<=48 quick / t<=32,n<=128 thorough); "
+    "level_note": "Trusted: Coq 8.16.1 kernel + vm_compute; hand-written model node_seq (tied by exhaustive comparison on t<=12,n<=36 quick / t<=32,n<=128 thorough, plus pseudo-random triples with t<=64, n<=400); "
                   "Go harness and Python driver. totalParts=0 (Go panics: modulo by zero) is excluded by the premise 0<t. Go int overflow is not modelled (indices are small).",
     "trusted_base": ["Coq 8.16.1 kernel, vm_compute", "model EC/NodeSeq.v hand-written, tied by differential check", "harness/cmd/ec, lib/vlib.py"],
     "assumptions": ["0 < totalParts (Go panics on 0)", "no int overflow of partIdx+shift"],
@@ -30,7 +30,7 @@ def run(ctx):
         cases = [v["case"] for v in rp.get("violations", []) if "case" in v]
         cases = [dict(c, seq=run_one(ctx, binp, c)) for c in cases]
     else:
-        mt, mn = (16, 48) if ctx.tier == "quick" else (32, 128)
+        mt, mn = (12, 36) if ctx.tier == "quick" else (32, 128)
         cases = ctx.run_json([binp, "nodeseq", str(mt), str(mn)])
     if not model:
         ctx.tie(False)
@@ -60,7 +60,7 @@ def run(ctx):
     ctx.cov.update({
         "evaluations": len(cases),
         "distinct_nontrivial": len({(c["p"], c["t"], c["n"]) for c in cases if c["n"] > 1 and c["t"] > 1}),
-        "rule": "all (p,t,n) with 1<=t<=T, 0<=p<t+2, 0<=n<=N; non-trivial = n>1 and t>1; distinct by (p,t,n)",
+        "rule": "all (p,t,n) with 1<=t<=T, 0<=p<t+2, 0<=n<=N (exhaustive box) plus 2N pseudo-random triples with t<=64, p<t, n<=400; non-trivial = n>1 and t>1; distinct by (p,t,n)",
         "exhaustive": True,
         "samples": [cases[len(cases) // 3], cases[-1]] if cases else [],
         "traces_validated_against_impl": len(cases),
